@@ -241,44 +241,10 @@ theorem C04_dtype_full_fails_emptykey : ¬ C04_dtype_full := by
   rw [ek_d3, ek_i3] at this
   exact absurd this (by decide)
 
-/-! ### known finding C04-common-iterable: the FIFTH law (commonType is an upper bound) is false of the code where Iterable meets a
-    Struct: Iterable[T] accepts the Hash type with maximal size 0, which accepts the empty Struct, but Iterable has no rule for Struct
-    (C03-trans-iterable), so the element fold of two Tuples answers an Iterable that rejects a declared Struct.  Witness (found by the
-    quick tier, seed 4, on the implementation): `Tuple[Hash[Any,Regexp[/b/],0,0], Struct[{}], 0, 2]` and `Tuple[Iterable[Timespan[1,5]]]`. -/
-local notation "H00" => Ty.hash Ty.any (Ty.regexp "b") ⟨0, 0⟩
-local notation "ITT" => Ty.iterable (Ty.tspan ⟨1, 5⟩)
-local notation "TA" => Ty.tuple [H00, Ty.struct []] (some ⟨0, 2⟩)
-local notation "TB" => Ty.tuple [ITT] none
-theorem it_e1 : asg idCfg4 true H00 (.struct []) = true := by
-  simp [asg, asgRecv, sameNullary, structSize, Rng.sub, asgMembers]
-theorem it_e2 : asg idCfg4 true ITT H00 = true := by
-  simp [asg, asgRecv, sameNullary]
-theorem it_e3 : asg idCfg4 true ITT (.struct []) = false := by
-  simp [asg, asgRecv, sameNullary]
-theorem it_e4 : asg idCfg4 true H00 ITT = false := by
-  simp [asg, asgRecv, sameNullary]
-theorem it_e5 : asg idCfg4 true TA TB = false := by
-  simp [asg, asgRecv, sameNullary, tupleSize, Rng.sub, Rng.exact, tupZip, it_e4]
-theorem it_e6 : asg idCfg4 true TB TA = false := by
-  simp [asg, asgRecv, sameNullary, tupleSize, Rng.sub, Rng.exact, tupZip, it_e2, it_e3]
-theorem it_f1 (n : Nat) : commonF idCfg4 true (n + 1) H00 (.struct []) = H00 := by
-  simp [commonF, Ty.isUnit, it_e1]
-theorem it_f2 (n : Nat) : commonF idCfg4 true (n + 1) H00 ITT = ITT := by
-  simp [commonF, Ty.isUnit, it_e2, it_e4]
-theorem it_f3a (n : Nat) : commonF idCfg4 true (n + 2) TA TB = .array ITT ⟨0, 2⟩ := by
-  rw [commonF]
-  simp only [Ty.isUnit, it_e5, it_e6, Bool.false_eq_true, if_false, foldCet, List.foldl, it_f1, it_f2, tupleSize, Rng.hull, Rng.exact]
-  simp; decide
-theorem it_f3 : commonType idCfg4 true TA TB = .array ITT ⟨0, 2⟩ := by
-  unfold commonType
-  have hw : (TA).w + (TB).w + 2 = (TA).w + (TB).w + 0 + 2 := by omega
-  rw [hw, it_f3a]
-theorem it_f4 : asg idCfg4 true (.array ITT ⟨0, 2⟩) TA = false := by
-  simp [asg, asgRecv, sameNullary, tupleSize, Rng.sub, Rng.exact, tupZip, it_e2, it_e3]
-theorem C04_common_full_fails_iterable : ¬ C04_common_full := by
-  intro h
-  have := (h idCfg4 TA TB (by simp [Ty.WF]) (by simp [Ty.WF])).1
-  rw [it_f3, it_f4] at this
-  exact absurd this (by decide)
+/-! ### C04-common-iterable (REPAIRED in /repo: Iterable rules for Struct, Enum, Pattern): the former witness
+    `commonType(Tuple[Hash[Any,Regexp[/b/],0,0], Struct[{}], 0, 2], Tuple[Iterable[Timespan[1,5]]])` is now a bound -/
+theorem C04_common_iterable_repaired :
+    asg idCfg4 true (.iterable (.tspan ⟨1, 5⟩)) (.struct []) = true := by
+  simp [asg, asgRecv, sameNullary, iterMembers]
 
 end Pcore.Lat
